@@ -26,6 +26,7 @@
        whose intersects_bounds is true (property C04).
    No proofs in this file. *)
 From Coq Require Import ZArith List Bool Arith.
+From Coq Require String.
 From SP Require Import Model.Num Model.Bounds Model.Rtree.
 Import ListNotations.
 
@@ -187,6 +188,47 @@ Section Frame.
     map (map f) parts.
   Definition pandas_map {B} (f : R -> B) (rows : list R) : list B := map f rows.
 End Frame.
+
+(* ------------------------------------------------------------------ *)
+(* the caches of DaskGeoDataFrame                                       *)
+(* ------------------------------------------------------------------ *)
+(* _partition_bounds / _partition_sindex: dicts  geometry column name -> per-partition
+   bounds (the index is built from them, so one dict stands for both: an entry of
+   _partition_sindex is only ever made together with the entry of _partition_bounds) *)
+Definition pcache := list (String.string * list bbox).
+
+Fixpoint cache_get (c : pcache) (name : String.string) : option (list bbox) :=
+  match c with
+  | [] => None
+  | (n, b) :: t => if String.eqb n name then Some b else cache_get t name
+  end.
+
+(* DaskGeoDataFrame.partition_sindex for the active geometry [name]:
+     if geometry_name not in self._partition_sindex:
+         geometry = self.geometry
+         if geometry_name in self._partition_bounds:
+             geometry._partition_bounds = self._partition_bounds[geometry_name]
+         self._partition_sindex[name] = geometry.partition_sindex
+         self._partition_bounds[name] = geometry.partition_bounds
+   -> the bounds the index is built from, and the cache afterwards.
+   [computed] = what map_partitions(total_bounds) gives on the partitions now. *)
+Definition frame_partition_bounds (c : pcache) (name : String.string) (computed : list bbox)
+  : list bbox * pcache :=
+  match cache_get c name with
+  | Some b => (b, c)
+  | None => (computed, (name, computed) :: c)
+  end.
+
+(* DaskGeoDataFrame.__getitem__(key): what the result inherits.
+     scalar / str / tuple key -> a series: its _partition_bounds is the entry of its name
+     ndarray / list key       -> a frame with the same rows: the whole dicts
+     anything else (a boolean series: row filtering) -> nothing *)
+Inductive getkey := KName (name : String.string) | KList | KOther.
+
+Definition getitem_frame_cache (c : pcache) (k : getkey) : pcache :=
+  match k with KList => c | _ => [] end.
+Definition getitem_series_cache (c : pcache) (k : getkey) : option (list bbox) :=
+  match k with KName n => cache_get c n | _ => None end.
 
 (* ------------------------------------------------------------------ *)
 (* sjoin                                                                *)
